@@ -115,6 +115,9 @@ def run(ck):
     for name in models:
         for iv in range(nvec):
             par = sample_params(name, rng)
+            if name in L.QUAD_DEGENERATE and iv % 6 == 4:
+                # the leading coefficient of the quadratic solved by `pressure` vanishes / nearly vanishes (C = N, C = 1, Kb = 0: inside the bounds)
+                par = L.quad_degenerate_params(name, par, rng)
             m = make(pg, name, par)
             ps = p_grid(name, par, rng, npts)
             sig0 = {"model": name}
@@ -187,7 +190,7 @@ def run(ck):
             # Henry slope
             if name in HENRY:
                 k = HENRY[name](par)
-                p0 = henry_probe(name, par)
+                p0 = L.henry_probe_of(name, par)
                 hs = float(m.loading(np.float64(p0))) / p0
                 note(name + ".henry", relerr(hs, k))
                 if relerr(hs, k) > 1e-6:
@@ -199,8 +202,6 @@ def run(ck):
                     continue
                 if n1 < 1e-290:
                     continue      # a subnormal loading (DR/DA far down the exponential tail) carries no relative accuracy: outside the denormal-free domain
-                if L.quad_degenerate(name, par):
-                    continue      # see c10lib.quad_degenerate (candidate defect of the unchanged tree, reported)
                 if name in SAT and n1 > 0.95 * SAT[name](par) and name in QUAD_INV | {"Toth", "Langmuir"}:
                     continue      # cancellation close to saturation (tolerance table: up to 0.95 of saturation)
                 try:
@@ -210,7 +211,8 @@ def run(ck):
                     continue
                 e = relerr(back, p1)
                 if name in QUAD_INV:
-                    # cancellation in -y - sqrt(y^2 - 4xn): error is absolute on the scale of the pressure range
+                    # moderate grid: error on the scale of the pressure range (the grid runs up to 0.95 of saturation, where the inverse is
+                    # ill-conditioned); the RELATIVE accuracy of these inverses, conditioned, is the business of the wide sweep (2b)
                     e = abs(back - p1) / (abs(p1) + 1e-3 * ps[-1])
                 note(name + ".pressure∘loading", e)
                 tol1 = tol
@@ -227,7 +229,7 @@ def run(ck):
                     if relerr(fwd, n1) > 1e-9:
                         ck.fail_case({**sig0, "clause": "loading(pressure(n))=n"}, {"params": par, "n": float(n1), "fwd": fwd})
             # array form of the inverse
-            if name in QUAD_INV and not L.quad_degenerate(name, par):
+            if name in QUAD_INV:
                 with np.errstate(all="ignore"):
                     arr = np.asarray(m.pressure(np.array([0.0, nn[2], nn[3]])), dtype=float)
                 if arr[0] != 0.0 or abs(arr[1] - ps[2]) > 1e-5 * (ps[2] + 1e-3 * ps[-1]):
@@ -462,6 +464,8 @@ def wide_sweep(ck, pg, np, models, note):
     for name in models:
         for iv in range(nvec):
             par = L.sample_params_wide(name, rng) if iv % 2 else sample_params(name, rng)
+            if name in L.QUAD_DEGENERATE and iv % 5 == 3:
+                par = L.quad_degenerate_params(name, par, rng)      # C = N / C = 1 / Kb = 0 and their neighbourhood (findings S51-C10b)
             m = make(pg, name, par)
             sig0 = {"model": name, "region": "wide"}
             ck.count(("wide", name, tuple(par.values())), bucket="wide:" + name)
@@ -510,13 +514,14 @@ def wide_sweep(ck, pg, np, models, note):
                     continue            # numerical inverses: the box and range on which the library's solver was measured
                 amp = 1.0
                 if name in QUAD_INV:
-                    # TODO(candidate genuine defect, reported; keep this region out until it is decided): the quadratic-formula inverses
-                    # (BET, GAB, DSLangmuir, Quadratic `pressure`) lose their RELATIVE accuracy at low coverage -- cancellation in
-                    # -y - sqrt(y^2 - 4 x n), relative error ~ 1e-16 y^2 / (x n): BET(n_m=1, C=50, N=0.4): pressure(loading(1e-7)) is off by
-                    # 8e-5, at 1e-8 by 3e-3, pressure(loading(1e-9)) = -0.0.  The tolerance table states their tolerance on the scale of the
-                    # pressure range on the moderate grid (section 2 above); the forward direction is still checked here over the whole box
-                    # (exact rational reference, Henry decades).
-                    continue
+                    # the quadratic-formula inverses (BET, GAB, DSLangmuir, Quadratic): RELATIVE accuracy over the whole box, from the extreme
+                    # low-coverage end (findings S51-C10a: the textbook form of the root cancelled there; Props/C10/Findings.lean
+                    # `textbook_sqrt_error`, `stable_sqrt_error`) to the validity limit, times the conditioning of the inverse (exact, rational),
+                    # times -- BET / GAB -- the rounding of 1 - N p in the loading that is handed in
+                    amp = L.quad_inverse_condition(name, par, p1) * (1 / (1 - x) if name in ("BET", "GAB") else 1.0)
+                    amp = max(1.0, amp)
+                    if not amp <= 1e6:
+                        continue        # (so close to saturation that the loading itself does not determine the pressure to 1e-4)
                 elif name in ("Langmuir", "Toth"):
                     th = n1 / par["n_m"]
                     if th >= 1 - 1e-9:
@@ -541,6 +546,11 @@ def wide_sweep(ck, pg, np, models, note):
                 if name == "Langmuir" and math.isfinite(back):
                     ex_lines.append(f"ev {name} pressure {plist} {qstr(float(n1))}")
                     ex_meta.append((name, "pressure", par, x, float(n1), back))
+                if name in QUAD_INV and math.isfinite(back) and back > 1e-290:
+                    # `pressure` alone against the exact model: the EXACT loading (Lean, Q) at the pressure the library returned is the
+                    # loading that was asked for, to the accuracy the conditioning of the forward map leaves
+                    ex_lines.append(f"ev {name} loading {plist} {qstr(back)}")
+                    ex_meta.append((name, "residual", par, x, float(n1), (back, amp)))
             # the other composition from the saturation end: loading(pressure(n)) = n for n up to (1 - 1e-12) n_m
             if name in ("Langmuir", "Toth"):
                 for _ in range(ck.n(3, 6)):
@@ -557,7 +567,7 @@ def wide_sweep(ck, pg, np, models, note):
             # Henry limit decade by decade below the probe of the moderate oracle
             if name in HENRY:
                 k = HENRY[name](par)
-                p0 = henry_probe(name, par)
+                p0 = L.henry_probe_of(name, par)
                 alpha = L.henry_alpha(name, par)
                 ds = [d for d in range(1, 300) if p0 * 10.0 ** (-d) > 1e-280 and k * p0 * 10.0 ** (-d) > 1e-280]
                 pa = np.array([p0 * 10.0 ** (-d) for d in ds])
@@ -584,6 +594,16 @@ def wide_sweep(ck, pg, np, models, note):
                 ck.broken.append({"step": "driver ModelEval", "what": {"model": name, "fn": fn, "reply": rep}})
                 continue
             ex = parse_q(t[1])
+            if fn == "residual":
+                back, amp = got
+                icond = 1 / L.quad_inverse_condition(name, par, back) if name in ("BET", "GAB") else 1.0      # d ln n / d ln p > 1 towards the pole
+                tol = 2e-12 * max(1.0, icond)          # measured on the repaired tree: <= 1.5e-14 * icond (thorough, 5 seeds)
+                e = float(abs(Fr(arg) - ex) / abs(Fr(arg)))
+                note(f"{name}.pressure.exact-residual/tol", e / tol)
+                if not e <= tol:
+                    fail({"model": name, "region": "wide", "clause": "loading(pressure(n))=n", "fn": "pressure", "oracle": "exact"},
+                         {"params": par, "loading": arg, "K*p": x, "library_pressure": back, "exact_loading_there": float(ex), "relative_error": e, "tol": tol})
+                continue
             if fn == "loading":
                 cond = 1 / (1 - x) if name in ("BET", "GAB") else 1.0       # 1 - N p is a difference of rounded numbers near the pole
                 tol = 2e-13 + 2e-15 * cond
@@ -627,10 +647,9 @@ def arg_kinds_bare(ck, pg, np, pd, models):
                 compare = closed or scalar_only or (name in ROOT_INV and name not in PEXPLICIT)
                 tol = 1e-13 if closed else (1e-12 if scalar_only else 1e-3)
                 if fn == "pressure" and name in QUAD_INV:
-                    # the cancellation in -y - sqrt(y^2 - 4 x n) amplifies a last-bit difference between numpy's scalar and array paths
-                    # (observed 2e-13 .. 1e-9); a wrong element is off by O(1)
-                    tol = 1e-6
-                    compare = not L.quad_degenerate(name, par)
+                    # quadratic-formula inverses in their cancellation-free form: a last-bit difference between numpy's scalar and array
+                    # paths is amplified by the conditioning of the inverse at most (coverage <= 0.8 here; observed 2e-16 .. 1e-14)
+                    tol = 1e-11
                 check_kinds(ck, np, pd, getattr(m, fn), {"model": name, "fn": fn}, vals, _ints_for(name, par, fn), kinds, must, closed, tol,
                             compare=compare, detail={"params": par})
 
@@ -688,8 +707,7 @@ def through_isotherm(ck, pg, np, pd, models, w, PST, LST, MST, c03):
             compare = closed or scalar_only or (name in ROOT_INV and name not in PEXPLICIT)
             tol = 1e-13 if closed else (1e-12 if scalar_only else 1e-3)
             if fn == "pressure" and name in QUAD_INV:
-                tol = 1e-6
-                compare = not L.quad_degenerate(name, par)
+                tol = 1e-11
             f = (lambda a, meth=meth, kw=kw: getattr(miso, meth)(a, **kw))
             nbad = check_kinds(ck, np, pd, f, {**base, "fn": meth}, vals, [1, 2, 3], kinds, must, closed, tol, compare=compare, detail=det, f32_values=not kw)
             # ... and the numbers are the bare model's after unit conversion (vector call, the caller's array kept)
